@@ -290,6 +290,8 @@ pub fn raw_alphabet(signer: Signer) -> Vec<(&'static str, Vec<u8>)> {
             rlp::enc_str(&k)
         }),
         ("bad-ed-pk", rlp::enc_str(&bad_ed_pk())),
+        ("secp-uncompressed65", rlp::enc_str(&crate::alpha::secp65(false))),
+        ("secp-hybrid65", rlp::enc_str(&crate::alpha::secp65(true))),
         ("pk-as-list", rlp::enc_list_payload(&signer.pub_raw())),
         ("own-pk-tag05", {
             let mut k = signer.pub_raw();
@@ -321,7 +323,11 @@ pub fn key_alphabet() -> Vec<(&'static str, Vec<u8>)> {
         v.push((name, rlp::enc_str(k.as_bytes())));
     }
     // look-alikes of reserved keys (prefixes, extensions, other case): ordinary custom keys
-    for k in ["i", "ip4", "ip66", "tcp4", "tcp66", "udp4", "udp66", "ID", "idx", "secp256k", "secp256k11", "ed2551", "ed255199", "client2", "Tcp", "ip\u{0}"] {
+    // ... and keys that are in use in the wild (none of them is typed by EIP-778)
+    for k in [
+        "i", "ip4", "ip66", "tcp4", "tcp66", "udp4", "udp66", "ID", "idx", "secp256k", "secp256k11", "ed2551", "ed255199", "client2", "Tcp", "ip\u{0}", "quic", "quic6", "eth", "eth2",
+        "attnets", "syncnets", "les", "snap", "opstack", "nfd", "csc", "cgc", "rlpx", "v", "t", "c", "bls", "mev", "das", "wit", "ips", "ports",
+    ] {
         let name: &'static str = Box::leak(format!("key:{}", k.escape_default()).into_boxed_str());
         v.push((name, rlp::enc_str(k.as_bytes())));
     }
@@ -574,6 +580,38 @@ pub fn byte_mutants(seed: &[u8], label: &str) -> Vec<Case> {
     out
 }
 
+/// Field-level tampers: every structural operator applied to a genuine record while KEEPING its
+/// signature (a permutation, deletion, duplication or replacement of pairs, another seq form, ...).
+pub fn tamper_mutants(s: &Shape) -> Vec<Case> {
+    let good = s.signer.sign(&rlp::enc_list(&s.items));
+    structural_mutants(s, Tier::Quick)
+        .into_iter()
+        .filter(|(_, _, l)| !l.starts_with("insert-pair@") && !l.starts_with("size="))
+        .map(|(m, outer, l)| Case { label: format!("{}/tamper-keeping-signature:{}", s.label, l.split(":=").next().unwrap_or(&l).split('=').next().unwrap_or(&l)), bytes: render(&good, &m.items, outer), devs: 1, family: "sigfield" })
+        .collect()
+}
+
+/// A seed of the same content whose genuine signature has a zero first byte of r (and one with a
+/// zero first byte of s): equivalent shorter encodings of the signature exist only for those.
+pub fn leading_zero_sig_seeds(base: &Shape) -> Vec<(Shape, &'static str)> {
+    let mut out = vec![];
+    if !matches!(base.signer, Signer::Secp(_)) {
+        return out;
+    }
+    for (which, off) in [("r", 0usize), ("s", 32usize)] {
+        for seq in 1u64..20_000 {
+            let mut items = base.items.clone();
+            items[0] = rlp::enc_int(seq);
+            let sig = base.signer.sign(&rlp::enc_list(&items));
+            if sig[off] == 0 {
+                out.push((Shape { label: format!("{}+sig-with-zero-leading-{which}", base.label), signer: base.signer, items }, which));
+                break;
+            }
+        }
+    }
+    out
+}
+
 pub fn sigfield_mutants(s: &Shape, others: &[Shape]) -> Vec<Case> {
     let mut out = vec![];
     let content = rlp::enc_list(&s.items);
@@ -604,6 +642,31 @@ pub fn sigfield_mutants(s: &Shape, others: &[Shape]) -> Vec<Case> {
         it.push(rlp::enc_str(b"zzzz"));
         it.push(rlp::enc_int(1));
         push("over-content-plus-pair", s.signer.sign(&rlp::enc_list(&it)), &s.items);
+    }
+    // over the digest of the content instead of the content (and over the digest of the digest)
+    {
+        let d1 = keccak256(&content);
+        push("over-keccak256(content)-as-message", s.signer.sign(&d1), &s.items);
+        let d2 = keccak256(&d1);
+        push("over-keccak256(keccak256(content))-as-message", s.signer.sign(&d2), &s.items);
+    }
+    // shorter encodings of the same (r, s): a zero first byte of r or of s dropped
+    if good.len() == 64 {
+        if good[0] == 0 {
+            push("r-leading-zero-dropped", good[1..].to_vec(), &s.items);
+        }
+        if good[32] == 0 {
+            let mut g = good[..32].to_vec();
+            g.extend_from_slice(&good[33..]);
+            push("s-leading-zero-dropped", g, &s.items);
+        }
+        let mut both = good.clone();
+        while both.first() == Some(&0) {
+            both.remove(0);
+        }
+        if both.len() < 64 {
+            push("leading-zeros-stripped", both, &s.items);
+        }
     }
     // over the bare payload without list header, over sig||content
     push("over-unframed-payload", s.signer.sign(&content[rlp::header(&content, true).unwrap().hlen..]), &s.items);
@@ -927,6 +990,14 @@ pub fn authenticity_cases(tier: Tier) -> Vec<Case> {
         cases.push(Case { label: format!("{}/seed", s.label), bytes: b.clone(), devs: 0, family: "byte" });
         cases.extend(byte_mutants(b, &s.label));
         cases.extend(sigfield_mutants(s, &shapes));
+        cases.extend(tamper_mutants(s));
+        if s.label.ends_with(":minimal") || s.label.ends_with(":all-reserved") {
+            for (z, _) in leading_zero_sig_seeds(s) {
+                let zb = render(&z.signer.sign(&rlp::enc_list(&z.items)), &z.items, Outer::Canonical);
+                cases.push(Case { label: format!("{}/seed", z.label), bytes: zb, devs: 0, family: "byte" });
+                cases.extend(sigfield_mutants(&z, &shapes));
+            }
+        }
     }
     if tier == Tier::Thorough {
         // d = 2: all pairs of bit flips within signature + seq + first pair region of the minimal seeds
